@@ -189,6 +189,10 @@ var wireSpecs = []wireSpec{
 		{"values", []string{"store var<input.Instance>.Values <- astconv.ValuesConverter.Convert(p0.valuesConverter,"}, "the durations are not stored in the instance"},
 		{"chord", []string{"store var<input.Instance>.Chord <- astconv.ChordConverter.Convert(p0.chordConverter,"}, "the converted chord is not stored in the instance"},
 	}},
+	{"input", "ChordMetaTextMotifier.generateText", []wireFact{
+		{"root", []string{"[p1.Degree.Value,note.DegreeName.Coerce(p1.Degree.Name)"}, "the root is not written as its own number followed by its own mark"},
+		{"bass", []string{"p1.Base])"}, "the bass is not written with its own interval (number and mark of the bass, not of the root)"},
+	}},
 	{"input/ast", "NewToken", []wireFact{
 		{"type", []string{"store var<input/ast.Token>.VType <- github.com/berquerant/ybase.Token.Type(p0)"}, "a tree token loses the lexer's token type: consumers that dispatch on the type (the accidental canonicaliser) see type 0"},
 		{"value", []string{"store var<input/ast.Token>.VValue <- github.com/berquerant/ybase.Token.Value(p0)"}, "a tree token does not carry the lexer token's text"},
@@ -443,6 +447,26 @@ func ruleWire(c *Ctx) {
 					found = true
 				}
 			}
+			// every spelling of the result is printed: the print sits in a loop over the whole sorted list and only a
+			// failed write leaves the loop early
+			c.site(1)
+			printed := false
+			for _, ff := range withClosures(f) {
+				for _, ci := range callsIn(ff) {
+					n := calleeName(ci.Common())
+					if n != "fmt.Fprintf" && n != "fmt.Fprintln" && n != "fmt.Fprint" {
+						continue
+					}
+					call, ok := ci.(*ssa.Call)
+					if !ok || !inLoop(call.Block()) {
+						continue
+					}
+					if c.loopCoversSlice(call.Block()) && (c.errorReturned(call) || len(nonDebugRefs(call)) == 0) {
+						printed = true
+					}
+				}
+			}
+			c.check(printed, a+"|print-all", c.pos(f.Pos()), a, "every key of the result is printed", a+": the loop that prints the resulting keys does not print all of them (it leaves early without a write error, or does not cover the list): two-spelling results lose a spelling")
 			c.check(found, a+"|letters", c.pos(f.Pos()), a, "step i = conversion of letter i of the -c text", a+": the conversion steps are not the letters of the -c text one by one (the text is rewritten or filtered first): chains that cancel or repeat are not carried out step by step")
 		}
 	}
